@@ -292,9 +292,98 @@ def check_snapshot(model, rep):
     rep.decide(not stores and not reads, 'C18.pure', 'Powertrain.snapshot',
                f'snapshot keeps/reads private state on the powertrain ({[s.attr for s in stores] + reads}): a cached axis can go stale '
                f'after reset/rerun', loc=m.loc)
+    check_admission(model, rep, m)
+    check_initial_columns(model, rep, m)
     rep.require('C18.own-guard', 12)
     rep.require('C18.pairing', 11)
     rep.require('C18.interp', 11)
+
+
+def check_admission(model, rep, m):
+    """every target time inside the simulated interval, boundaries included, is admitted: each raising path of the
+    range test implies target < min(time) or target > max(time) (compared as SI magnitudes)"""
+    from sa import sx as sxm
+    from sa.algebra import Rat
+    from sa.sx import SX, Q, U, Ov, Seq, CannotDecide, make_cmp, implies
+    tests = [n for n in strip_docstring(m.node.body) if isinstance(n, ast.If) and n.body and isinstance(n.body[0], ast.Raise)
+             and any(isinstance(x, ast.Name) and x.id == 'target_time' for x in ast.walk(n.test))
+             and any(isinstance(x, ast.Compare) and not isinstance(x.ops[0], (ast.Is, ast.IsNot)) for x in ast.walk(n.test))]
+    cons = 'Powertrain.snapshot:admission'
+    if not tests:
+        rep.holds('C18.range', cons, 'no range test on the target time (interp1d rejects times outside the axis)', m.loc)
+        return
+    sx = SX(model)
+    sxm.POSITIVE_ATOMS.clear()
+    T = Rat.atom('T')
+    st = sxm.State(env={'self': Ov('self', 'Powertrain', True), 'target_time': Q('Time', T, U(sym='t'))})
+    st.heap[('self', 'time')] = Seq('self.time', ('q', 'Time'))
+    frame = {'module': m.module, 'cls': 'Powertrain', 'fn': m.node, 'depth': 0}
+    lo, hi = Rat.atom('min(self.time)'), Rat.atom('max(self.time)')
+    below, above = make_cmp('<', T - lo), make_cmp('<', hi - T)
+    ok, why = True, ''
+    try:
+        for t in tests:
+            tr, fa, rs = sx.branch(t.test, st, frame)
+            for s_ in tr:
+                g = list(s_.guards)
+                if not (implies(g, below) or implies(g, above)):
+                    ok, why = False, (f'a target time with `{" and ".join(x.show(sx.ctx) for x in g)}` is rejected: every instant of '
+                                      f'the simulated interval, first and last included, must be admitted')
+    except CannotDecide as e:
+        rep.cannot('C18.range', cons, str(e), m.loc)
+        return
+    rep.decide(ok, 'C18.range', cons, why, loc=f'{m.module}:{tests[0].lineno}')
+
+
+def check_initial_columns(model, rep, m):
+    """the frame is created with exactly the labels the column writes use: `<variable> (<its unit>)`, `pwm` bare -
+    any other label stays in the result as an extra, empty column"""
+    from sa import sx as sxm
+    from sa.sx import SX, Sv, Tv, Uv, U, Ov, CannotDecide
+    body = strip_docstring(m.node.body)
+    frames = [n for n in body if isinstance(n, ast.Assign) and isinstance(n.value, ast.Call)
+              and ast.unparse(n.value.func).endswith('DataFrame')]
+    cons = 'Powertrain.snapshot:initial-columns'
+    if len(frames) != 1:
+        rep.cannot('C18.pairing', cons, f'{len(frames)} data-frame creations', m.loc)
+        return
+    kw = {k.arg: k.value for k in frames[0].value.keywords}
+    if 'columns' not in kw:
+        rep.holds('C18.pairing', cons, 'the frame is created without predeclared columns', m.loc)
+        return
+    sx = SX(model)
+    sx.eval_comprehensions = True
+    env = {'self': Ov('self', 'Powertrain', True), 'variables': Tv([Sv(v) for v in UNIT_PARAM])}
+    for a in m.node.args.args + m.node.args.kwonlyargs:
+        if a.arg.endswith('_unit'):
+            env[a.arg] = Uv(U(sym=a.arg))
+    st = sxm.State(env=env)
+    frame = {'module': m.module, 'cls': 'Powertrain', 'fn': m.node, 'depth': 0}
+    # statements that bind the mapping and the column list (between the variable selection and the frame)
+    needed = []
+    names = {x.id for x in ast.walk(kw['columns']) if isinstance(x, ast.Name)}
+    for n in reversed(body[:body.index(frames[0])]):
+        if isinstance(n, ast.Assign) and len(n.targets) == 1 and isinstance(n.targets[0], ast.Name) and n.targets[0].id in names \
+                and n.targets[0].id != 'variables':
+            needed.insert(0, n)
+            names |= {x.id for x in ast.walk(n.value) if isinstance(x, ast.Name)}
+    try:
+        outs = [o for o in sx.block(needed, [st], frame) if o.kind == 'fall']
+        if len(outs) != 1:
+            raise CannotDecide(f'{len(outs)} paths through the column-list statements')
+        cols = sx.eval1(kw['columns'], outs[0].state, frame)
+    except CannotDecide as e:
+        rep.cannot('C18.pairing', cons, str(e), m.loc)
+        return
+    if not isinstance(cols, Tv) or not all(isinstance(i, Sv) for i in cols.items):
+        rep.cannot('C18.pairing', cons, f'column list evaluates to `{sx.show(cols)[:80]}`', m.loc)
+        return
+    got = [i.s for i in cols.items]
+    want = [v if p is None else f'{v} (<{p}>)' for v, p in UNIT_PARAM.items()]
+    bad = [(g, w) for g, w in zip(got, want) if g != w]
+    rep.decide(not bad and len(got) == len(want), 'C18.pairing', cons,
+               f'the frame is created with the column {bad[0][0]!r} where the writes use {bad[0][1]!r}: the result carries an extra, '
+               f'empty column' if bad else f'{len(got)} columns for {len(want)} variables', loc=f'{m.module}:{frames[0].lineno}')
 
 
 def check_export_columns(model, rep, mod, fn, unit_map):
